@@ -118,6 +118,11 @@ def rule_pure(m):
                                  'cast to %s removes const in %s' % (n.get('towritten'), f.display())))
             if n['k'] == 'CallExpr' and 'callee' in n:
                 d = f.unit.decl(n['callee'])
+                if d and d.get('tname') in ('std::async', 'std::thread::thread') or (d and d.get('tname', '').startswith(('std::thread::', 'std::jthread'))):
+                    res.sites += 1
+                    res.fail(Finding('D-PURE', f.display(), 'thread started by the library', f.nloc(n['i']),
+                                     '%s starts another thread (%s): whatever that thread shares with its creator (locals captured by '
+                                     'reference, the graph) is accessed concurrently inside a single call' % (f.display(), d.get('tname'))))
                 if d and d.get('name') in NONREENTRANT and not d.get('inroots'):
                     res.sites += 1
                     res.fail(Finding('D-PURE', f.display(), 'call to ' + d['name'], f.nloc(n['i']),
